@@ -626,7 +626,8 @@ public:          // need to be public due to CRTP
       if (ce.nonlinear_expr())
         eexpr.add( Convert2EExpr(ce.nonlinear_expr()) );
       common_exprs_[index] = Convert2Var(std::move(eexpr));
-    }
+    } else    // one more use of the defined variable's expression
+      GetFlatCvt().IncrementVarUsage(common_exprs_[index]);
     return EExpr::Variable{ common_exprs_[index] };
   }
 
